@@ -2,9 +2,9 @@
 (* HullMovingAverage(period n, left, right, source): value = HMA(n)(src) = WMA(isqrt n)(2 WMA(n div 2) - WMA(n)),  *)
 (* all windows seeded with the first source value.  S0 = ReversalSignal(left, right)(value): +1 when the value      *)
 (* `right` steps ago is a low pivot (reversal upwards), -1 on a high pivot.  The pivot detector is seeded with the  *)
-(* first SOURCE value (not a logged float): comparisons of a logged value against that seed are decided on the      *)
-(* fixed-point numbers; for computed sources (hl2, tp, volumed_price) within rounding of the seed both outcomes     *)
-(* are admitted (the spec branches).                                                                                *)
+(* average's value on the constant prehistory (= the first source value up to rounding; not a logged float):        *)
+(* comparisons of a logged value against that seed are decided on the fixed-point numbers, and within rounding of   *)
+(* the seed both outcomes are admitted (the spec branches).                                                         *)
 \* SPEC: values signals
 EXTENDS IndLib
 
@@ -36,7 +36,9 @@ HullMovingAverage_RevNext(st, x, dir, direct) ==
               : g \in HullMovingAverage_Ge(x, st.ev, dir, direct)}
 
 HullMovingAverage_Sig(cfg, sg, c, v) ==
-    LET direct == cfg.source \in {"close", "open", "high", "low", "volume"}
+    \* the seed is the moving average of the constant prehistory (repaired in /repo: it was the source value itself): a computed
+    \* number for every source, so no comparison against it is "direct"
+    LET direct == FALSE
     IN  {[sg |-> [hi |-> h.st, lo |-> w.st], sigs |-> <<{Act(w.out - h.out)}>>]
          : h \in HullMovingAverage_RevNext(sg.hi, v[1], 1, direct), w \in HullMovingAverage_RevNext(sg.lo, v[1], -1, direct)}
 =============================================================================
